@@ -13,7 +13,7 @@
 //! FAIL classes: c03-poll-panicked, c03-poll-hang, c03-no-echo-reply.
 //!
 //! Case format (replayable):
-//!   case <id> medium=<ip|eth|154> [ck=tx]
+//!   case <id> medium=<ip|eth|154> [ck=tx] [db=<octets of the DHCP socket's receive packet buffer>]
 //!   f <dt_ms> <hex frame>          deliver the frame, poll
 //!   l <dt_ms> <k> | j <dt_ms> <k>  leave / (re)join multicast group k (see `group`), poll
 //!   b <dt_ms> <n>                  device back-pressure: n tx tokens left (255 = unlimited), poll
@@ -70,6 +70,9 @@ struct Node {
     raw: SocketHandle,
     dns: SocketHandle,
     dhcp: Option<SocketHandle>,
+    /// (query id, source port) of the last DNS query and xid of the last DHCP message this node transmitted
+    seen_dns: Option<(u16, u16)>,
+    seen_dhcp_xid: Option<u32>,
 }
 
 fn mk_node(medium: Medium, last: u8, seed: u64) -> Node {
@@ -131,7 +134,7 @@ fn mk_node_ck(medium: Medium, last: u8, seed: u64, ck_tx_only: bool) -> Node {
     let server = if medium == Medium::Ieee802154 { IpAddress::Ipv6(ll_addr(medium, 2)) } else { IpAddress::v4(10, 0, 0, 2) };
     let dns = sockets.add(dns::Socket::new(&[server], q));
     let dhcp = if medium == Medium::Ethernet { Some(sockets.add(dhcpv4::Socket::new())) } else { None };
-    Node { medium, iface, dev, sockets, tcp_listen, tcp_client, udp, icmp, raw, dns, dhcp }
+    Node { medium, iface, dev, sockets, tcp_listen, tcp_client, udp, icmp, raw, dns, dhcp, seen_dns: None, seen_dhcp_xid: None }
 }
 
 fn peer_ip(medium: Medium, last: u8) -> IpAddress {
@@ -309,6 +312,18 @@ fn ipv4_udp(src: Ipv4Address, dst: Ipv4Address, sport: u16, dport: u16, payload:
     buf
 }
 
+
+/// Transaction id of the DHCPDISCOVER the (deterministic) warmed-up Ethernet target has outstanding when a case
+/// starts: the hand-made DHCP seeds use it, so that OFFER/ACK/NAK mutations get past the xid test of the client.
+fn target_dhcp_xid() -> u32 {
+    warm_target(Medium::Ethernet).seen_dhcp_xid.unwrap_or(0x12345678)
+}
+
+/// (id, source port) of the DNS query the warmed-up target has outstanding when a case starts
+fn target_dns_query(medium: Medium) -> (u16, u16) {
+    warm_target(medium).seen_dns.unwrap_or((0x1234, 49152))
+}
+
 fn handmade_seeds(medium: Medium) -> Vec<Vec<u8>> {
     let mut v = vec![];
     if medium == Medium::Ieee802154 {
@@ -326,11 +341,21 @@ fn handmade_seeds(medium: Medium) -> Vec<Vec<u8>> {
             v.push(f);
         }
     }
+    if medium != Medium::Ieee802154 {
+        // the same response carrying the id and port of the query the target really has outstanding
+        let (id, port) = target_dns_query(medium);
+        let mut rsp = dns_rsp.clone();
+        rsp[0..2].copy_from_slice(&id.to_be_bytes());
+        if let Some(f) = wrap_l2(medium, ipv4_udp(srv, me4, 53, port, &rsp), false) {
+            v.push(f.clone());
+            v.push(f);
+        }
+    }
     // DHCP offer / ack
     for mt in [DhcpMessageType::Offer, DhcpMessageType::Ack, DhcpMessageType::Nak] {
         let d = DhcpRepr {
             message_type: mt,
-            transaction_id: 0x12345678,
+            transaction_id: if medium == Medium::Ethernet { target_dhcp_xid() } else { 0x12345678 },
             secs: 0,
             client_hardware_address: EthernetAddress([0x02, 0, 0, 0, 0, 1]),
             client_ip: Ipv4Address::UNSPECIFIED,
@@ -687,6 +712,17 @@ fn warm_target_ck(medium: Medium, ck_tx_only: bool) -> Node {
         a.iface.poll(t, &mut a.dev, &mut a.sockets);
         p.iface.poll(t, &mut p.dev, &mut p.sockets);
         for f in a.dev.drain_tx() {
+            // remember the identifiers a reply must carry (IPv4/UDP without IP options, behind the link header)
+            let l2 = match medium { Medium::Ethernet => 14, _ => 0 };
+            if medium != Medium::Ieee802154 && f.len() > l2 + 28 + 4 && f[l2] == 0x45 && f[l2 + 9] == 17 {
+                let dport = u16::from_be_bytes([f[l2 + 22], f[l2 + 23]]);
+                let sport = u16::from_be_bytes([f[l2 + 20], f[l2 + 21]]);
+                if dport == 53 {
+                    a.seen_dns = Some((u16::from_be_bytes([f[l2 + 28], f[l2 + 29]]), sport));
+                } else if dport == 67 && f.len() > l2 + 28 + 8 {
+                    a.seen_dhcp_xid = Some(u32::from_be_bytes([f[l2 + 32], f[l2 + 33], f[l2 + 34], f[l2 + 35]]));
+                }
+            }
             p.dev.rx.push_back(f);
         }
         for f in p.dev.drain_tx() {
@@ -727,10 +763,16 @@ fn run_case(c: &Case) -> Option<(String, String)> {
         .collect();
     let cid = c.id.clone();
     let ck_tx_only = c.get("ck") == Some("tx");
+    let dhcp_buf: Option<usize> = c.get("db").and_then(|v| v.parse().ok());
     let (txch, rxch) = std::sync::mpsc::channel();
     let th = std::thread::Builder::new().stack_size(16 << 20).spawn(move || {
         let r = std::panic::catch_unwind(std::panic::AssertUnwindSafe(|| {
             let mut a = warm_target_ck(medium, ck_tx_only);
+            if let (Some(n), Some(h)) = (dhcp_buf, a.dhcp) {
+                // the optional copy of the last DHCP message, into a buffer smaller or larger than the message
+                let buf: &'static mut [u8] = Box::leak(vec![0u8; n].into_boxed_slice());
+                a.sockets.get_mut::<dhcpv4::Socket>(h).set_receive_packet_buffer(buf);
+            }
             let mut now: i64 = 1000;
             for (k, (dt, op)) in frames.iter().enumerate() {
                 now += dt;
@@ -933,6 +975,9 @@ fn main() {
                         // every third case of a medium: receive checksums are not verified by the stack
                         if (i / 3) % 3 == 2 {
                             cfg.push(("ck".into(), "tx".into()));
+                        }
+                        if m == Medium::Ethernet && (i / 3) % 2 == 1 {
+                            cfg.push(("db".into(), rng.pick(&[0usize, 64, 240, 300, 600]).to_string()));
                         }
                         Case { id: format!("z{}-{}", seed, i), cfg, ops }
                     })
